@@ -43,6 +43,11 @@ type Spec struct {
 	ackChecked bool
 	repaired   bool
 	loadFailed bool
+
+	// C17
+	variant  int    // Go struct variant of the current handle (1 = the stored structure, 5 = reordered)
+	lastHash string // last directory digest
+	hashMustHold bool
 }
 
 // failedWrite: a write call that returned an error, with the sweep taken just before it
@@ -255,6 +260,9 @@ func (s *Spec) Check(e *Exec, t []string) {
 	}
 	if r[0] == "crash" {
 		s.onCrash(e, t, fresh)
+		return
+	}
+	if s.c17(e, t, r) {
 		return
 	}
 	s.stateOracles(e, t, r)
@@ -901,4 +909,58 @@ func (s *Spec) afterCrash(e *Exec, t, r []string) {
 			}
 		}
 	}
+}
+
+// c17: schema guard oracles. Returns true when the op was executed through a changed struct
+// (the ordinary oracles do not apply to it).
+func (s *Spec) c17(e *Exec, t, r []string) bool {
+	switch t[0] {
+	case "vopen":
+		s.variant, _ = strconv.Atoi(t[1])
+		s.results = map[int]*specRes{}
+		s.lastSweep, s.pending = "", nil
+		return true
+	case "dirhash":
+		h := ""
+		for _, l := range e.obs {
+			if strings.HasPrefix(l, "# hash ") {
+				h = l[7:]
+			}
+		}
+		if s.lastHash != "" && s.hashMustHold && h != s.lastHash {
+			s.fail(e, "C17", "files changed although every operation in between had to be refused (digest %s -> %s)", s.lastHash, h)
+		}
+		s.lastHash, s.hashMustHold = h, true
+		return true
+	case "create":
+		// a refused re-creation must not touch the files; an accepted one may rewrite schema.json
+		if r[0] == "ok" {
+			s.hashMustHold = false
+		}
+		if len(t) > 1 && (strings.HasPrefix(t[1], "ext=") || strings.HasPrefix(t[1], "cons=")) && s.variant <= 1 {
+			want := "fielddesc"
+			if strings.HasPrefix(t[1], "ext=") {
+				want = "extension"
+			}
+			if r[0] != want {
+				s.fail(e, "C17", "re-creation with %s: got %s want %s", t[1], r[0], want)
+			}
+		}
+	}
+	if s.variant >= 2 && s.variant <= 4 {
+		switch t[0] {
+		case "fs", "close", "control", "tick", "reopen", "flushall":
+			// calls that take no object, or have nothing to do: no schema is looked up
+		default:
+			if r[0] != "structure" {
+				s.fail(e, "C17", "operation %q through a struct whose shape changed (variant %d): got %s, want the structure-changed error", t[0], s.variant, r[0])
+			}
+		}
+		return true
+	}
+	switch t[0] {
+	case "ins", "many", "bulk", "del", "delall", "sdel", "commit", "flushall", "flushallc", "repair", "close", "tick", "reopen":
+		s.hashMustHold = false
+	}
+	return false
 }
